@@ -82,7 +82,8 @@ static Mutation mutate(IrModel &m, Rng &rng)
         "component.import-ref", "component.add-child", "component.remove-leaf", "variable.id", "variable.name", "variable.units", "variable.init",
         "variable.iface", "variable.add", "variable.remove", "reset.id", "reset.order", "reset.var", "reset.testvar", "reset.testvalue",
         "reset.resetvalue", "reset.tvid", "reset.rvid", "reset.add", "reset.remove", "units.id", "units.name", "units.import-ref", "units.add",
-        "units.remove", "unit.ref", "unit.prefix", "unit.exp", "unit.mult", "unit.id", "unit.add", "unit.remove", "importsource.id"};
+        "units.remove", "unit.ref", "unit.prefix", "unit.exp", "unit.mult", "unit.id", "unit.add", "unit.remove", "importsource.id",
+        "component.wrap-in-new-parent", "component.dangling-import-ref", "units.dangling-import-ref"};
     for (int attempt = 0; attempt < 60; ++attempt) {
         Mutation mu;
         mu.name = rng.pick(names);
@@ -139,6 +140,35 @@ static Mutation mutate(IrModel &m, Rng &rng)
                     continue;
                 }
                 c.importRef += "X";
+            } else if (n == "component.dangling-import-ref") {
+                // an import reference on a component that is not an import (e.g. left behind by setImportSource(nullptr))
+                if (c.import >= 0) {
+                    continue;
+                }
+                c.importRef += "dangling";
+            } else if (n == "component.wrap-in-new-parent") {
+                // c (with its subtree) becomes the only child of a new component that takes c's place: the number of
+                // children of c's old container is unchanged, c itself is found one level deeper
+                IrComponent w;
+                w.name = "wrapper_of_" + c.name;
+                w.parent = c.parent;
+                int wi = static_cast<int>(m.comps.size());
+                int oldParent = c.parent;
+                m.comps.push_back(w);
+                auto &cc = m.comps[static_cast<size_t>(ci)]; // (push_back may have reallocated)
+                cc.parent = wi;
+                m.comps[static_cast<size_t>(wi)].children.push_back(ci);
+                if (oldParent >= 0) {
+                    for (auto &k : m.comps[static_cast<size_t>(oldParent)].children) {
+                        if (k == ci) {
+                            k = wi;
+                        }
+                    }
+                }
+                // connections of c to its former siblings/parent are no longer representable: equality ignores them
+                m.conns.erase(std::remove_if(m.conns.begin(), m.conns.end(), [&](const IrConnection &cn) { return cn.c1 == ci || cn.c2 == ci; }), m.conns.end());
+                mu.comp = oldParent;
+                mu.kind = oldParent >= 0 ? "component" : "model";
             } else if (n == "component.add-child") {
                 IrComponent k;
                 k.name = "added_child";
@@ -324,6 +354,11 @@ static Mutation mutate(IrModel &m, Rng &rng)
                             continue;
                         }
                         u.name += "X";
+                    } else if (n == "units.dangling-import-ref") {
+                        if (u.import >= 0) {
+                            continue;
+                        }
+                        u.importRef += "dangling";
                     } else if (n == "units.import-ref") {
                         if (u.import < 0) {
                             continue;
